@@ -20,6 +20,7 @@ import (
 	"sync"
 	"syscall"
 	"time"
+	"unicode/utf8"
 
 	"github.com/martian-lang/martian/martian/core"
 )
@@ -65,6 +66,19 @@ func c18PathComponent(c *Ctx) string {
 		if strings.Contains(s, "\n") && c.Rng.Intn(4) != 0 {
 			s = strings.ReplaceAll(s, "\n", "n")
 		}
+		// now and then the component holds one of the names the runtime itself appends to paths
+		// or looks for in them (a directory called like a metadata file, a fork, the files dir)
+		if c.Rng.Intn(6) == 0 {
+			mark := []string{"_stdout", "_stderr", "_stdout_stdout", "files", "_outs", "fork0", "chnk0", "_jobinfo", "_stdout.bak", "x_stderr"}[c.Rng.Intn(10)]
+			cut := 0
+			if len(s) > 0 {
+				cut = c.Rng.Intn(len(s) + 1)
+				for cut < len(s) && !utf8.RuneStart(s[cut]) {
+					cut++
+				}
+			}
+			s = s[:cut] + mark + s[cut:]
+		}
 		if !strings.HasPrefix(s, ".") && s != "" && strings.ToValidUTF8(s, "") == s {
 			return s
 		}
@@ -81,7 +95,65 @@ func c18Arg(c *Ctx) string {
 	if c.Rng.Intn(10) == 0 {
 		return c18GenLong(c)
 	}
+	if c.Rng.Intn(10) == 0 {
+		return c18GenLines(c)
+	}
 	return c18GenValid(c)
+}
+
+// c18TemplateWords: the distinct words of the shipped templates' command lines (here-document
+// delimiters without their quotes and `<<`, operators, command names): a value LINE equal to
+// one of them must still be data.
+var c18TemplateWords []string
+
+func c18LoadTemplateWords(repo string) {
+	if c18TemplateWords != nil {
+		return
+	}
+	seen := map[string]bool{}
+	add := func(w string) {
+		w = strings.Trim(strings.TrimLeft(w, "<-"), "'\"")
+		if w != "" && !seen[w] && !strings.Contains(w, "__MRO_") && len(c18TemplateWords) < 60 {
+			seen[w] = true
+			c18TemplateWords = append(c18TemplateWords, w)
+		}
+	}
+	for _, w := range []string{"EOF", "EOT", "END", "done", "fi", "}", "esac", ".", "'", "\"", "exit"} {
+		add(w)
+	}
+	files, _ := filepath.Glob(filepath.Join(repo, "jobmanagers", "*.template*"))
+	sort.Strings(files)
+	for _, f := range files {
+		b, _ := os.ReadFile(f)
+		for _, l := range strings.Split(string(b), "\n") {
+			if strings.HasPrefix(strings.TrimSpace(l), "#") {
+				continue
+			}
+			for _, w := range strings.Fields(l) {
+				add(w)
+			}
+		}
+	}
+}
+
+// c18GenLines: a value of several lines, one of which is exactly a word of the templates (or a
+// common here-document / block terminator); the line after it would be a command if the value
+// were ever read line by line
+func c18GenLines(c *Ctx) string {
+	w := "EOF"
+	if len(c18TemplateWords) > 0 {
+		w = c18TemplateWords[c.Rng.Intn(len(c18TemplateWords))]
+	}
+	pre := strings.ReplaceAll(c18GenValid(c), "\x00", "")
+	post := []string{"echo C18-LINE-INJECTED", "echo C18-LINE-INJECTED #", "x", "\"", ""}[c.Rng.Intn(5)]
+	switch c.Rng.Intn(3) {
+	case 0:
+		return pre + "\n" + w + "\n" + post
+	case 1:
+		return w + "\n" + post + "\n" + pre
+	default:
+		return pre + "\n" + w + "\n" + post + "\n" + w + "\n"
+	}
 }
 
 // directiveHasPath: the template puts the stdout/stderr path on a `#` line.
@@ -96,6 +168,7 @@ func directiveHasPath(t string) bool {
 
 func runC18Scripts(c *Ctx) {
 	r := c.Res
+	c18LoadTemplateWords(c.RepoDir)
 	tdir := filepath.Join(c.RepoDir, "jobmanagers")
 	files, _ := filepath.Glob(filepath.Join(tdir, "*.template*"))
 	sort.Strings(files)
